@@ -398,6 +398,17 @@ def apply_contracts(src, ops, modname):
                 if kidx >= len(lps):
                     raise AnchorLost(f'{src.path}: fn `{op["path"]}` has no loop #{kidx}')
                 kwi, bi = lps[kidx]
+                if isinstance(spec, dict):
+                    # name the ghost iterator of a `for` loop: `for x in NAME: expr`
+                    j = kwi + 1
+                    while j < bi and not (toks[j].kind == 'ident' and toks[j].text == 'in'):
+                        if toks[j].kind == 'punct' and toks[j].text in '([{':
+                            j = toks[j].match
+                        j += 1
+                    if toks[kwi].text != 'for' or j >= bi:
+                        raise AnchorLost(f'{src.path}: loop #{kidx} of `{op["path"]}` is not a for loop')
+                    w.insert(toks[j].end, f" {spec['iter_name']}:", f'{label}#loop{kidx}', 'W4')
+                    spec = spec['spec']
                 w.insert(toks[bi].start, '\n' + spec.rstrip() + '\n', f'{label}#loop{kidx}', 'W4')
             for (kidx, c) in sorted(op.get('closures', {}).items()):
                 cls = src.closures(fn)
@@ -430,16 +441,32 @@ def apply_contracts(src, ops, modname):
                 w.insert(off, ' ' + pr['text'].strip() + ' ', f'{label}#proof', 'W6')
             for r8 in op.get('w8', []):
                 lps = src.loops(fn)
+                if r8['loop'] >= len(lps):
+                    raise AnchorLost(f'{src.path}: fn `{op["path"]}` has no loop #{r8["loop"]}')
                 kwi, bi = lps[r8['loop']]
                 header = norm(text[toks[kwi].start:toks[bi].end])
-                m = re.match(r8['match'], header)
-                if not m:
-                    raise AnchorLost(f'{src.path}: W8 loop header `{header}` does not match')
+                inv = r8.get('spec', '').rstrip()
+                if r8['kind'] == 'enumerate':
+                    m = re.match(r'^for \((\w+), (\w+)\) in (\w+)\.iter\(\)\.enumerate\(\) \{$', header)
+                    if not m:
+                        raise AnchorLost(f'{src.path}: W8 loop header `{header}` is not an enumerate loop')
+                    i_, x_, e_ = m.groups()
+                    head = f'let mut {i_}: usize = 0; while {i_} < {e_}.len()\n{inv}\n{{ let {x_} = &{e_}[{i_}];'
+                    tail = f' {i_} += 1; '
+                elif r8['kind'] == 'step_by':
+                    m = re.match(r'^for (\w+) in \((.+)\.\.(.+)\)\.step_by\((\w+)\) \{$', header)
+                    if not m:
+                        raise AnchorLost(f'{src.path}: W8 loop header `{header}` is not a step_by loop')
+                    i_, a_, b_, k_ = m.groups()
+                    head = f'let mut {i_}: usize = {a_}; while {i_} < {b_}\n{inv}\n{{'
+                    tail = f' if {b_} - {i_} <= {k_} {{ break; }} {i_} += {k_}; '
+                else:
+                    raise ValueError(r8['kind'])
                 body_txt = text[toks[bi].end:toks[toks[bi].match].start]
                 if re.search(r'\b(continue|break)\b', body_txt):
                     raise AnchorLost(f'{src.path}: W8 loop body contains continue/break')
-                w.rewrite(toks[kwi].start, toks[bi].end, m.expand(r8['head']), f'{label}#w8')
-                w.insert(toks[toks[bi].match].start, m.expand(r8['tail']), f'{label}#w8tail', 'W8')
+                w.rewrite(toks[kwi].start, toks[bi].end, head, f'{label}#w8')
+                w.insert(toks[toks[bi].match].start, tail, f'{label}#w8tail', 'W8')
         elif k == 'append':
             w.insert(len(text), '\n' + op['text'] + '\n', f'{modname}#append', 'W1')
         else:
